@@ -21,6 +21,7 @@ fn main() {
     match argv[1].as_str() {
         "partition" => pure::partition(&args),
         "partition-big" => pure::partition_big(&args),
+        "pathfs" => pure::pathfs(&args),
         "replay-sender" => sender_drv::replay_sender(&args),
         "sessions" => recv_drv::sessions(&args),
         "replay-receiver" => recv_drv::replay_receiver(&args),
